@@ -283,10 +283,12 @@ REGISTRY = {
     },
     'C10': {
         'theorems': ['PP.Limits.limits_tokens', 'PP.Limits.limit_that_does_not_bite', 'PP.Limits.shown_canon', 'PP.Tok.shown_ok', 'PP.Tok.wf_shown', 'PP.C03.output_tokens',
-                     'PP.C04.sound_pformat', 'PP.C10.truncation_text', 'PP.C10.no_limit', 'PP.C10.large_limit'],
-        'modules': VALUE_MODULES + ['PP.Props.Values', 'PP.Spec.Tokens', 'PP.Proofs.Toks', 'PP.Proofs.ToksStr', 'PP.Proofs.ToksComb', 'PP.Proofs.ToksVal', 'PP.Proofs.Shown', 'PP.Proofs.NoBite', 'PP.Props.C03', 'PP.Props.Limits', 'PP.Props.NoLimit', 'PP.Props.C04'],
+                     'PP.C04.sound_pformat', 'PP.C10.truncation_text', 'PP.C10.no_limit', 'PP.C10.large_limit', 'PP.C10.output_reads_back',
+                     'PP.C10.shown_list_truncated', 'PP.C10.shown_list_full', 'PP.Tok.inRd_shown', 'PP.Tok.canon_reads'],
+        'modules': VALUE_MODULES + ['PP.Props.Values', 'PP.Spec.Tokens', 'PP.Proofs.Toks', 'PP.Proofs.ToksStr', 'PP.Proofs.ToksComb', 'PP.Proofs.ToksVal', 'PP.Proofs.Shown', 'PP.Proofs.NoBite', 'PP.Props.C03', 'PP.Props.Limits', 'PP.Props.NoLimit', 'PP.Props.C04', 'PP.Spec.Reader', 'PP.Proofs.ReaderRT', 'PP.Proofs.ShownRd', 'PP.Props.C10b'],
         'sections': [{'name': 'truncation', 'run': values_sec('truncation_section')},
-                     {'name': 'tokens', 'run': values_sec('tokens_section', limits=True)}],
+                     {'name': 'tokens', 'run': values_sec('tokens_section', limits=True)},
+                     {'name': 'reader', 'run': values_sec('reader_section', mode='c10')}],
         'trusted': VALUE_TRUSTED,
         'rule': 'container trees x max_seq_len in {1..maxlen+1, None}',
     },
